@@ -264,6 +264,7 @@ def classify_sites(chk, sf):
         elif a["meta"]["path"] == "cfg_attr":
             payload = a.get("attrs", [])
             bad = []
+            payload = _flatten_cfg_attr(payload)
             for m in payload:
                 if m["path"] == "derive":
                     ds = [n_["path"].split("::")[-1] for n_ in m.get("nested", [])]
@@ -296,6 +297,10 @@ def classify_sites(chk, sf):
                 kind = "docs-setter"
             elif k == "impl-fn" and g["member"]["ident"] in ("docs", "docs_portable"):
                 kind = "docs-setter"
+            elif k == "impl-type" and g["ident"] == "PortableForm.String" and (g["owner"].get("trait") or "").split("::")[-1] == "Form" \
+                    and g["member"].get("ty", "").replace(" ", "") in ("crate::prelude::string::String", "String", "&'staticstr", "alloc::string::String"):
+                # the two string types encode / serialise identically (R6.3 checks the chosen one per configuration)
+                kind = "portable-string-alternative"
             else:
                 why = "feature-conditional %s `%s` under cfg(%s) is not of a kind known to be metadata-neutral" % (k, g["ident"], pred)
         counts[kind or "UNCLASSIFIED"] = counts.get(kind or "UNCLASSIFIED", 0) + 1
@@ -323,6 +328,44 @@ def classify_sites(chk, sf):
                     chk.fail("R15.1", "cfg_if:%s:%s" % (f["file"], m["line"]), where, "unclassified cfg_if! block", None)
             elif last == "cfg":
                 chk.fail("R15.1", "cfg-macro:%s" % f["file"], "src/%s:%s" % (f["file"], m["line"]), "cfg!(%s) makes a value feature-dependent" % m["tokens"], None)
+
+
+def _split_top(tokens):
+    out, depth, cur = [], 0, ""
+    for ch in tokens:
+        if ch in "([{<":
+            depth += 1
+        elif ch in ")]}>":
+            depth -= 1
+        if ch == "," and depth == 0:
+            out.append(cur.strip())
+            cur = ""
+        else:
+            cur += ch
+    if cur.strip():
+        out.append(cur.strip())
+    return out
+
+
+def _flatten_cfg_attr(payload):
+    """`cfg_attr(p, a, cfg_attr(q, b))`: the nested cfg_attr contributes its own attributes (under p && q, which is still a feature condition)"""
+    out = []
+    for m in payload:
+        if m["path"] != "cfg_attr":
+            out.append(m)
+            continue
+        parts = _split_top(m.get("tokens", ""))
+        for a in parts[1:]:
+            mm = re.match(r"^([\w:]+)\s*(?:\((.*)\))?$", a.strip(), re.S)
+            if not mm:
+                out.append({"path": "?", "tokens": a})
+                continue
+            path, inner = mm.group(1).replace(" ", ""), mm.group(2) or ""
+            node = {"path": path, "tokens": inner}
+            if path == "derive":
+                node["nested"] = [{"path": x.replace(" ", "")} for x in _split_top(inner)]
+            out += _flatten_cfg_attr([node])
+    return out
 
 
 def bitvec_module(sf, file):
